@@ -28,7 +28,8 @@ package ledger
 //                                                 verification hashes of the state after it     → ok <rows>
 //   run <name> mal=<MaxAcctLookback> cfg=<text> ev=<events>   events: b (block added) c<t> (commit requested up to
 //                                                 t, post-commit work done) X<t> (commit up to t, crash before the
-//                                                 post-commit work, recovery) r (restart); the commit that
+//                                                 post-commit work, recovery) r (restart) d / e (restart with catchpoint
+//                                                 tracking disabled / enabled again); the commit that
 //                                                 trackerRegistry.replay performs itself at the end of a (re)load is
 //                                                 recorded as a c<t> event after the r / X
 //                                                 → labels=<round>:<label>,…   every label the ledger created, in order
@@ -581,6 +582,24 @@ func (rp *vcpRep) noteReplayCommit(before basics.Round) {
 	}
 }
 
+// a real restart (Close + OpenLedger on the same files) with catchpoint tracking switched off (CatchpointTracking = -1: the
+// tracker's interval is 0, commitRound leaves the balances trie alone and stamps accounts hash round 0) or on again
+// (initializeHashes has to notice hash round != DB round and rebuild the trie)
+func (rp *vcpRep) reopen(enabled bool) {
+	require.True(rp.t, rp.cfg.onDisk, "switching tracking needs an on-disk ledger")
+	before := rp.dbRound()
+	rp.l.Close()
+	ev := "e"
+	rp.lcfg.CatchpointTracking = rp.cfg.trk
+	if !enabled {
+		ev = "d"
+		rp.lcfg.CatchpointTracking = -1
+	}
+	rp.open(filepath.Join(rp.dir, "led"))
+	rp.events = append(rp.events, ev)
+	rp.noteReplayCommit(before)
+}
+
 func vcpCopyTree(src, dst string) error {
 	return filepath.Walk(src, func(p string, info os.FileInfo, err error) error {
 		if err != nil {
@@ -661,6 +680,10 @@ func (rp *vcpRep) run() {
 				rp.flushOnce(rnd, false)
 			case 'r':
 				rp.restart()
+			case 'd':
+				rp.reopen(false)
+			case 'e':
+				rp.reopen(true)
 			case 'x':
 				rp.crashAt(rnd)
 				rp.drain(rnd)
@@ -895,6 +918,38 @@ func vc14Replicas(c vc14Case) []vcpRepCfg {
 		}
 		out = append(out, rc)
 	}
+	// a ledger that runs a while WITHOUT catchpoint tracking (committing account changes) and then with it again: its
+	// later labels must be the history's
+	tc := trie[r.Intn(len(trie))]
+	tg := vcpRepCfg{name: "toggle", mal: uint64([]int{1, 2, 4}[r.Intn(3)]), trk: int64(1 + r.Intn(2)), npp: int64(tc[0]), cache: tc[1],
+		onDisk: true, actions: map[int]string{}}
+	off := 3 + r.Intn(c.n/3)
+	on := off + 2 + r.Intn(int(c.interval)+2)
+	for k := 1; k <= c.n; {
+		act := "f"
+		switch {
+		case k == off:
+			act = "fd"
+		case k == on:
+			act = "fe"
+		case k > on && r.Chance(12):
+			act = "fr"
+		}
+		tg.actions[k] = act
+		if k >= off && k < on {
+			k += 1 + r.Intn(2)
+			if k > on {
+				k = on
+			}
+		} else {
+			step := 1 + r.Intn(int(c.interval))
+			if k < off && k+step > off {
+				step = off - k
+			}
+			k += step
+		}
+	}
+	out = append(out, tg)
 	return out
 }
 
